@@ -692,13 +692,13 @@ def gen_cases(ctx, round, entry):
                 c["form"] = r.choice(forms)
             cs.append(c)
         # -- long tables: row counts 2^k +- 1 beyond stdio and block sizes
-        for nrows in ((16385,) if q else (1025, 4095, 16383, 16385, 32769, 65537)):
+        for nrows in ((16385,) if q else (1025, 4095, 16383, 16385, 32769)):
             f = [{"name": "i", "t": r.choice(["i2", "u2", "i1"]), "o": r.choice("<>"), "shape": []},
                  {"name": "s", "t": "S1", "o": "|", "shape": []}]
             if nrows < 2000:
                 f.append({"name": "x", "t": "f4", "o": r.choice("<>"), "shape": []})
             c = mk_case(r, f, nrows, r.choice(DELIMS), "long-rows", True)
-            if nrows in (16385, 65537):
+            if nrows in (16385, 32769):
                 c["view"] = [1, 2]
             cs.append(c)
         # -- many rows
